@@ -511,6 +511,19 @@ theorem pybqm_changeVartype_after_view_history (vt : En.VT) (calls : List (En.VT
       pybqm_changeVartype_toSpin_any_state _ g.toLInv hvt]
     congr 1; funext v; ring
 
+/-- **there and back on the dict back-end**: on every state satisfying the invariant — in particular after any history of calls
+    through the model and its views — `change_vartype(other)` followed by `change_vartype(original)` gives back the very same
+    model: vartype, offset and every entry of `_adj` in the same insertion order (exact over ℚ; the generated multiplier tables
+    are inverse to each other, `pyTables_inverse`) -/
+theorem pybqm_changeVartype_roundtrip (m : LBqm Rat) (i : LInv m) (other : En.VT) :
+    (m.changeVartypeWith pyToBinary pyToSpin other).changeVartypeWith pyToBinary pyToSpin m.vt = m :=
+  changeVartype_roundtrip_dict m i other
+
+theorem pybqm_changeVartype_roundtrip_after_history (vt : En.VT) (calls : List (En.VT × VOp Rat)) (other : En.VT) :
+    ((LBqm.vrun vt calls).changeVartypeWith pyToBinary pyToSpin other).changeVartypeWith pyToBinary pyToSpin (LBqm.vrun vt calls).vt
+      = LBqm.vrun vt calls :=
+  changeVartype_roundtrip_dict _ (GInv.vrun vt calls).toLInv other
+
 /-- non-vacuity, the state seeded change C02-5 needs: `a` with an interaction is relabelled to `c`; the linear entry of `c`
     is first in its neighbourhood as coded (the theorem above does not depend on that) -/
 example : (LBqm.hrun .spin [.addLinear (.int 0) 1, .addQuadratic (.int 0) (.int 1) 2, .relabel (.int 0) (.int 2)]).rawOrder
